@@ -257,7 +257,7 @@ fn check(case: &Case, acc: &mut Acc) {
 /// Every character of the Basic Multilingual Plane as (part of) a bare string argument, and glued
 /// to a number.
 fn every_character() -> Acc {
-    speclib::report::par_cases(0x10000, |cp, acc| {
+    speclib::report::par_cases(0x110000, |cp, acc| {
         let c = match char::from_u32(cp as u32) {
             Some(c) if !c.is_control() && !matches!(c, ' ' | '\'' | '"' | '(' | ')' | '!' | ',') => c,
             _ => return,
